@@ -309,6 +309,33 @@ func c15TimeoutAfterRedeploy(w *World) []Violation {
 	return vs
 }
 
+// c15MuteTargetLargeUpload: as c15MuteTarget, with a request body larger than what the target's connection takes
+// without being read (memnet.PipeWindow): the proxy's write of the body cannot complete. The client still has to get
+// its 504 at the target timeout; a client that gives up 30 s later without having been answered is reported.
+func c15MuteTargetLargeUpload(w *World) []Violation {
+	var vs []Violation
+	tg := w.AddTarget("fmutb:80")
+	tg.Responder = c15Responder
+	const to = 1300 * time.Millisecond
+	for _, bufReq := range []bool{false, true} {
+		a := deployArgs("fmutb", []string{"fmutb:80"}, []string{"fmutb.example.com"}, nil)
+		a.TargetOptions.ResponseTimeout = to
+		a.TargetOptions.BufferRequests = bufReq
+		if r := w.Deploy(a); r.Err != nil {
+			return append(vs, Violation{"C15", "deploy-failed", r.Err.Error()})
+		}
+		t0 := w.Now()
+		o := w.Do(ReqSpec{Host: "fmutb.example.com", Path: "/m", Method: "POST", Body: bytes.Repeat([]byte("x"), memnet.PipeWindow+6000),
+			Header: [][2]string{{"X-Verif-Mute", "1"}}, CancelAfter: to + 30*time.Second})
+		if o.Status != 504 || o.End-t0 != to {
+			vs = append(vs, Violation{"C15", fmt.Sprintf("no-504-at-target-timeout mute-target upload-larger-than-connection-window buffer-requests=%v", bufReq),
+				fmt.Sprintf("target timeout %v, the target accepts the request head and reads nothing, body of %d bytes; the client gave up after %v: %s", to, memnet.PipeWindow+6000, o.End-t0, o.Summary())})
+		}
+	}
+	w.Remove("fmutb")
+	return vs
+}
+
 // c15MuteTarget: the target accepts the request head and then stays silent - it does not read the body and answers
 // nothing, not even `100 Continue`. Whatever the request looks like (no body, a body, a body announced with
 // `Expect: 100-continue`, a chunked one), the client gets 504 when the target timeout has passed, not later.
@@ -437,6 +464,7 @@ func c15Cases(tier string) []ECase {
 		}
 	}
 	cases = append(cases, ECase{Name: "redeploy onto the same target with another target timeout", Class: "timeout-after-redeploy", Run: c15TimeoutAfterRedeploy})
+	cases = append(cases, ECase{Name: "mute target, upload larger than the connection window", Class: "mute-target-large-upload", Run: c15MuteTargetLargeUpload})
 	cases = append(cases, ECase{Name: "target that accepts the request and stays mute (body shapes incl. Expect: 100-continue)", Class: "mute-target", Run: c15MuteTarget})
 	return cases
 }
